@@ -17,8 +17,10 @@ LAYOUTS = [
     ('p1:static-priority:3', 4, 'abp-priority-lifo'),
     ('p1:static:2,p2:static:3', 7, 'static-priority'),
 ]
+# (no layout with the elasticity mode: there select_active_pu may yield the calling task inside start(), which the
+#  model's `start does not yield` guard excludes - see notes/C10.md)
 THOROUGH_EXTRA = [
-    ('p1:static:2:e', 4, 'local-priority-fifo'),          # elasticity on: select_active_pu may redirect
+    ('p1:local:2,p2:static:3', 7, 'abp-priority-fifo'),
     ('p1:shared-priority:3,p2:static:2', 6, 'shared-priority'),
     ('p1:abp-priority-fifo:2,p2:static-priority:4', 8, 'local-priority-lifo'),
     ('-', 1, 'static'),
